@@ -565,7 +565,9 @@ func tryReplay(eng *Engine, o *Obligation, info map[string]any, repo string) boo
 	}
 	if rr.Panicked {
 		info["replay"] = "real function panicked on the model input (" + rr.Panic + ")"
-		return o.Kind != "ensures"
+		// a panic reproduces only obligations that are about panics (missing preconditions of
+		// callees surface as panics as well); for every other kind it shows nothing
+		return o.Kind == "call-pre"
 	}
 	if o.Kind != "ensures" || (len(o.retResults) == 0 && len(rr.Post) == 0) {
 		info["replay"] = "model input executed on the real code; clause kind " + o.Kind + " has no automatic output comparison"
